@@ -109,6 +109,117 @@ theorem c17_fits_accepted_sendfile (g : Cfg) (s : S) (off len : Nat) (ks : List 
     · rfl
     · rw [sendfileLoop_no_fail g ks hk]; rfl
 
+/-! ### Writev and IOV_MAX (the other assumption behind "fits ⇒ accepted", made explicit) -/
+
+/-- IOV_MAX of Linux -/
+def iovMax : Nat := 1024
+
+/-- the iovecs `writev(2)` is handed by `writev_linux.go`: one per non-empty slice -/
+def iovCount (bs : List Bytes) : Nat := (bs.filter (fun b => !b.isEmpty)).length
+
+/-- the kernel's rule for the vectored write: more than IOV_MAX iovecs is EINVAL, a fatal answer; otherwise the
+    answer `k` the socket would give -/
+def iovAns (bs : List Bytes) (k : KAns) : KAns := if iovCount bs > iovMax then .fail else k
+
+theorem total_pos_of_iovCount : ∀ bs : List Bytes, 0 < iovCount bs → 0 < total bs := by
+  intro bs
+  induction bs with
+  | nil => intro h; simp [iovCount] at h
+  | cons b tl ih =>
+    intro h
+    cases b with
+    | nil =>
+      have : iovCount ([] :: tl) = iovCount tl := by simp [iovCount]
+      rw [this] at h
+      have := ih h
+      simpa [total] using this
+    | cons x xs => simp [total]; omega
+
+theorem writevCore_of_many (g : Cfg) (s : S) (bs : List Bytes) (k : KAns) (h : 1 < iovCount bs) :
+    writevCore g s bs k = writevInner g s bs k := by
+  unfold writevCore
+  cases bs with
+  | nil => rfl
+  | cons b tl =>
+    cases tl with
+    | nil =>
+      exfalso
+      have : iovCount [b] ≤ 1 := by
+        unfold iovCount
+        exact Nat.le_trans (List.length_filter_le _ _) (by simp)
+      omega
+    | cons c tl2 => rfl
+
+/-- **C17 (fits ⇒ accepted, Writev, with the IOV_MAX rule of the kernel; PARTIAL above the limit).** On an open
+    reachable connection, for a `Writev` that fits and a socket answer `k` that is not fatal, with the kernel
+    answering EINVAL for more than IOV_MAX iovecs (`iovAns`):
+    * at most IOV_MAX non-empty slices: accepted in full (this is `c17_fits_accepted_writev`);
+    * more than IOV_MAX non-empty slices behind a backlog: accepted in full as well — nothing is handed to the
+      kernel, the slices are queued;
+    * more than IOV_MAX non-empty slices on an empty queue: NOT accepted — the call returns `(0, err)` with the
+      kernel's error (not the overflow error), nothing is accepted or sent and the connection is closed.
+    So the listed assumption "Writev passes ≤ IOV_MAX non-empty slices" is needed exactly in the third case. -/
+theorem c17_fits_writev_iovmax_partial (g : Cfg) (s : S) (bs : List Bytes) (k : KAns) (hr : Reach g s)
+    (hc : s.closed = false) (hk : k ≠ .fail) (hfit : fits g s (total bs)) :
+    let r := writev g s bs (iovAns bs k)
+    (iovCount bs ≤ iovMax → r.2 = ⟨total bs, .none⟩) ∧
+    (iovCount bs > iovMax → s.wl ≠ [] → r.2 = ⟨total bs, .none⟩) ∧
+    (iovCount bs > iovMax → s.wl = [] →
+      r.2 = ⟨0, .io⟩ ∧ r.1.closed = true ∧ r.1.accepted = s.accepted ∧ r.1.wire = s.wire) := by
+  intro r
+  have hd := (reach_inv hr).1
+  refine ⟨fun hle => ?_, fun hgt hne => ?_, fun hgt hemp => ?_⟩
+  · have e : iovAns bs k = k := by unfold iovAns; rw [if_neg (by omega)]
+    show (writev g s bs (iovAns bs k)).2 = _
+    rw [e]; exact c17_fits_accepted_writev g s bs k hr hc hk hfit
+  · show (writev g s bs (iovAns bs k)).2 = _
+    have hmany : 1 < iovCount bs := by unfold iovMax at hgt; omega
+    rw [writev_eq, if_neg (by simp [hd.nohang]), if_neg (by simp [hc]), finishCall_ret, writevCore_of_many g s bs _ hmany]
+    unfold writevInner
+    have hq : (!s.wl.isEmpty) = true := by cases hw : s.wl <;> simp_all
+    simp only [overflow_of_fits hfit, hq, Bool.false_eq_true, if_false, if_true]
+  · have e : iovAns bs k = .fail := by unfold iovAns; rw [if_pos hgt]
+    have hmany : 1 < iovCount bs := by unfold iovMax at hgt; omega
+    have hpos : 0 < total bs := total_pos_of_iovCount bs (by omega)
+    have hret : (writev g s bs (iovAns bs k)).2 = ⟨0, .io⟩ := by
+      rw [e, writev_eq, if_neg (by simp [hd.nohang]), if_neg (by simp [hc]), finishCall_ret, writevCore_of_many g s bs _ hmany]
+      unfold writevInner
+      have hq : (!s.wl.isEmpty) = false := by simp [hemp]
+      have h0 : ¬ total bs = 0 := by omega
+      simp only [overflow_of_fits hfit, hq, h0, Bool.false_eq_true, if_false, if_true]
+    have herr : (writev g s bs (iovAns bs k)).2.err ≠ .none := by rw [hret]; simp
+    obtain ⟨a1, a2, a3⟩ := c01_error_writev_inv g s bs _ hd herr
+    exact ⟨hret, a3, a1, a2⟩
+
+theorem iovCount_replicate (n : Nat) (x : UInt8) (xs : Bytes) : iovCount (List.replicate n (x :: xs)) = n := by
+  induction n with
+  | zero => rfl
+  | succ n ih =>
+    have : iovCount ((x :: xs) :: List.replicate n (x :: xs)) = iovCount (List.replicate n (x :: xs)) + 1 := by
+      simp [iovCount]
+    rw [List.replicate_succ, this, ih]
+
+/-- non-vacuity of the third case: 1025 one-byte slices on the empty queue of a freshly registered connection
+    without a bound, the socket would take everything — the call fails and the connection is closed -/
+example (g : Cfg) (hg : g.maxWB = 0) :
+    let s := run g init [.register]
+    let r := writev g s (List.replicate 1025 [1]) (iovAns (List.replicate 1025 [1]) (.wrote 1025))
+    r.2 = ⟨0, .io⟩ ∧ r.1.closed = true := by
+  intro s r
+  have hr : Reach g s := ⟨[.register], rfl⟩
+  have hc : s.closed = false := by
+    show (registerOp g init).closed = false
+    simp [registerOp, register, init, ghost, pAddRead, kctl]
+    split <;> simp [kctl]
+  have hw : s.wl = [] := by
+    show (registerOp g init).wl = []
+    simp [registerOp, register, init, ghost, pAddRead, kctl]
+    split <;> simp [kctl]
+  have hcnt : iovCount (List.replicate 1025 ([1] : Bytes)) > iovMax := by
+    rw [iovCount_replicate]; decide
+  have h := (c17_fits_writev_iovmax_partial g s (List.replicate 1025 [1]) (.wrote 1025) hr hc (by simp) (Or.inl hg)).2.2 hcnt hw
+  exact ⟨h.1, h.2.1⟩
+
 /-! ### Sendfile while dup(2) fails (the assumption behind "fits ⇒ accepted" for Sendfile, made explicit) -/
 
 /-- **C17 (accounting and bound survive a failing dup).** `sendfileNoDupOp` is a stutter or an op of the alphabet
